@@ -5,14 +5,29 @@ from common import *
 import sqlparse
 from sqlparse import lexer, tokens as T
 
-RULE = ('grammar scripts (comment-free) rendered once, then re-spelled: every whitespace run between tokens and inside multi-word keywords replaced by another non-empty run of blanks/tabs/line breaks, '
-        'every keyword re-cased; compared: statement count, get_type, tree shape (classes, nesting, significant leaves with keywords normalised); non-trivial = distinct (script, respelling) pair whose texts differ')
+RULE = ('grammar scripts (comment-free; with window calls, AT TIME ZONE, INTERVAL units, array indexes, every JOIN spelling, NULLS FIRST/LAST, parametrised column types) rendered once, then re-spelled: '
+        'every whitespace run between tokens and inside multi-word keywords replaced by another non-empty run of blanks/tabs/line breaks, every keyword re-cased — once at random and systematically '
+        '(canonical upper/lower single-blank spelling, every run doubled, every run a line break / tab / CRLF); every phrase the lexer rule table accepts as a multi-word token (enumerated from the rule regexes) '
+        'under every inner-whitespace and casing variant; compared: statement count, get_type, tree shape (classes, nesting, significant leaves with keywords normalised); '
+        'non-trivial = distinct (script, respelling) pair whose texts differ')
 ASSUMPTIONS = ['lexical clause (multi-word keywords are one token for every inner whitespace and casing) sampled through S-LEX on the respelled texts']
 PARTIAL = ['splitter: view-invariance theorem; grouping: respell_group (values of existing tokens: keyword case, inner whitespace of multi-word keywords, whitespace values) and whitespace_count_invariant (number/type of whitespace tokens, on the decidable domain InDomain: no comment token, no := token, WsDomain) are theorems over all 25 passes; with comments or := the statement is false for the library (known findings KF-C11-1/2); the lexical step (re-spelled text lexes to WsEquiv token lists) and get_type are checked by the metamorphic oracle on the real code']
 WS = [' ', '  ', '\t', '\n', '\r\n', ' \n ', '\n\n', '\t ']
 
 
-def respell(rng, text):
+C11_FEAT = {'window': True, 'tzcast': True, 'interval': True, 'arrayidx': True, 'alljoins': True, 'nulls': True, 'typeargs': True}
+# systematic respellings: (whitespace run between tokens, whitespace inside a multi-word keyword, casing)
+MODES = {'canon': (' ', ' ', 'upper'), 'lower': (' ', ' ', 'lower'), 'double': ('  ', '  ', 'cap'), 'newline': ('\n', '\n', 'upper'),
+         'tab': ('\t', '\t', 'lower'), 'crlf': ('\r\n', ' \r\n ', 'cap'), 'inner2': (' ', '  ', 'upper'), 'innernl': (' ', '\n', 'lower')}
+
+
+def respell_mode(text, mode):
+    """deterministic respelling: every whitespace run, every inner whitespace of a multi-word keyword and the casing as `mode` says"""
+    ws, inner, case = MODES[mode]
+    return respell(None, text, fixed=(ws, inner, case))
+
+
+def respell(rng, text, fixed=None):
     out = []
     toks = list(lexer.tokenize(text))
     i = 0
@@ -22,12 +37,12 @@ def respell(rng, text):
             j = i
             while j < len(toks) and toks[j][0] in T.Whitespace:
                 j += 1
-            out.append(rng.choice(WS))
+            out.append(fixed[0] if fixed else rng.choice(WS))
             i = j
             continue
         if tt in T.Keyword or tt in T.Name.Builtin or tt is T.Operator.Comparison and v[:1].isalpha():
             words = v.split()
-            c = rng.choice(['upper', 'lower', 'cap', 'mixed'])
+            c = fixed[2] if fixed else rng.choice(['upper', 'lower', 'cap', 'mixed'])
             def one(w):
                 if c == 'upper': return w.upper()
                 if c == 'lower': return w.lower()
@@ -38,7 +53,7 @@ def respell(rng, text):
             else:
                 s = one(words[0])
                 for w in words[1:]:
-                    s += rng.choice(WS) + one(w)
+                    s += (fixed[1] if fixed else rng.choice(WS)) + one(w)
                 out.append(s)
         else:
             out.append(v)
@@ -101,10 +116,117 @@ def compare(ctx, a, b):
             return
 
 
+# --- red-team hardening: the multi-word tokens of the lexer, enumerated from its own rule table ---------------------------------------
+def rule_phrases(limit=40):
+    """sample strings of every lexer rule whose regex contains whitespace (`\\s`, a literal blank): alternatives and optional groups expanded,
+    `\\s+` -> one blank, other classes -> a fixed member.  Yields (rule index, phrase)."""
+    try:
+        import re._parser as sre_parse
+    except ImportError:
+        import sre_parse
+    from sqlparse import keywords as K
+
+    def expand(items):
+        outs = ['']
+        for op, av in items:
+            name = str(op)
+            if name == 'LITERAL':
+                alts = [chr(av)]
+            elif name in ('SUBPATTERN',):
+                alts = expand(av[-1])
+            elif name == 'BRANCH':
+                alts = []
+                for br in av[1]:
+                    alts += expand(br)
+            elif name in ('MAX_REPEAT', 'MIN_REPEAT'):
+                lo, hi, sub = av
+                one = expand(sub)
+                alts = ([''] if lo == 0 else []) + one
+            elif name == 'IN':
+                cats = [str(a) for o, a in av if str(o) == 'CATEGORY']
+                if any(str(o) == 'NEGATE' for o, a in av):
+                    alts = ['x']
+                elif any('SPACE' in c and 'NOT' not in c for c in cats):
+                    alts = [' ']
+                elif any('DIGIT' in c and 'NOT' not in c for c in cats):
+                    alts = ['2']
+                else:
+                    lit = [chr(a) for o, a in av if str(o) == 'LITERAL'] + [chr(a[0]) for o, a in av if str(o) == 'RANGE']
+                    alts = lit[:1] or ['x']
+            elif name == 'NOT_LITERAL':
+                alts = ['x']
+            elif name == 'ANY':
+                alts = ['x']
+            elif name in ('AT', 'ASSERT', 'ASSERT_NOT', 'GROUPREF'):
+                alts = ['']
+            elif name == 'CATEGORY':
+                alts = [' '] if 'SPACE' in str(av) and 'NOT' not in str(av) else ['2'] if 'DIGIT' in str(av) and 'NOT' not in str(av) else ['x']
+            else:
+                alts = ['']
+            outs = [a + b for a in outs for b in alts][:limit * 4]
+        return outs
+    for ri, (rx, tt) in enumerate(K.SQL_REGEX):
+        if '\\s' not in rx and ' ' not in rx:
+            continue
+        if rx in (r'\s+?', r'(\r\n|\r|\n)'):
+            continue
+        if not (tt is K.PROCESS_AS_KEYWORD or tt in T.Keyword or tt in T.Name.Builtin or tt in T.Operator):
+            continue        # whitespace inside comments and literals is content, not layout
+        try:
+            forms = expand(sre_parse.parse(rx))
+        except Exception:
+            continue
+        seen = set()
+        for f in forms:
+            f = f.strip()
+            if ' ' in f and f not in seen and len(seen) < limit:
+                seen.add(f)
+                # the sampler is approximate: keep a phrase only if the lexer at hand takes its single-blank upper-case spelling as ONE token
+                if len(list(lexer.tokenize(f.upper() if "'" not in f else f))) == 1:
+                    yield ri, f
+
+
+def phrase_pairs(ctx):
+    """each multi-word phrase, canonical spelling vs each inner-whitespace/casing variant, between two names and at the places such keywords stand"""
+    variants = [('  ', 'upper'), ('\n', 'upper'), ('\t', 'lower'), (' \r\n ', 'cap'), (' ', 'lower'), ('\n\n', 'mixed')]
+    def spell(ph, inner, case):
+        ws = ph.split(' ')
+        def one(w, k):
+            if "'" in w:
+                return w
+            if case == 'upper': return w.upper()
+            if case == 'lower': return w.lower()
+            if case == 'cap': return w.capitalize()
+            return ''.join(ch.upper() if (i + k) % 2 else ch.lower() for i, ch in enumerate(w))
+        return inner.join(one(w, k) for k, w in enumerate(ws))
+    for ri, ph in rule_phrases():
+        for ctxt in ('a1 %s b1', 'select x1 from t1 %s t2 on c1 = d1 where e1 = 1 %s f1'):
+            base = ctxt.replace('%s', ph.upper())
+            for inner, case in variants:
+                yield base, ctxt.replace('%s', spell(ph, inner, case))
+
+
 def run(ctx):
     rng = ctx.rng
     g = grammar.Gen(rng)
     texts = []
+    # systematic part: scripts with the extra constructs, each compared with its canonical spelling under every deterministic mode
+    g2 = grammar.Gen(rng, feat=C11_FEAT)
+    nsys = 0
+    for it in range(ctx.n(250, 6000)):
+        stmts = [g2.stmt() for _ in range(rng.randint(1, 2))] if rng.random() < 0.85 else [g2.create_block(), g2.stmt()]
+        a = grammar.render_script(stmts, grammar.Layout(rng, comments=0, tight=rng.choice([0.0, 0.3])), final_semi=rng.random() < 0.5)
+        canon = respell_mode(a, 'canon')
+        compare(ctx, canon, a)
+        for m in MODES:
+            if m != 'canon':
+                compare(ctx, canon, respell_mode(a, m))
+        nsys += len(MODES)
+    for a, b in phrase_pairs(ctx):
+        compare(ctx, a, b)
+        nsys += 1
+    ctx.count('systematic respellings + rule phrases', nsys)
+    ctx.dist.update({'grammar2.' + k: v for k, v in g2.hist.items()})
     for it in range(ctx.n(400, 12000)):
         if rng.random() < 0.15:
             stmts = [g.stmt() for _ in range(rng.randint(0, 1))] + [g.create_block()] + [g.stmt() for _ in range(rng.randint(0, 1))]
@@ -167,6 +289,7 @@ def classify(f, kf):
     if not (isinstance(inp, (list, tuple)) and len(inp) == 2 and all(isinstance(x, str) for x in inp)):
         return None
     toks = [t for x in inp for t in lexer.tokenize(x)]
+    # (the GO <n> whitespace defect found by the phrase sweep was repaired: fix 6877257, KF-C11-F4 — a fixed entry suppresses nothing)
     for k in kf:
         if k['id'] == 'KF-C11-2' and any(tt is T.Assignment for tt, _ in toks):
             return k['id']
